@@ -463,6 +463,13 @@ def check_shared_writes(ctx, w: World, om: OriginModel) -> None:
         if lk:
             fi_ = w.model.funcs[fq]
             ctx.bad("C17.2", f"memo in {fq}: the key rounds an argument, the remembered value does not", f"{fi_.rel}:{lk[0]}", lk[1], owners=[fq], object=f"{fq}.<memo>")
+    from .shared_state import memo_ignores_parameter
+    for fq in sorted(w.reach):
+        mp = memo_ignores_parameter(w.model, fq)
+        if mp:
+            fi_ = w.model.funcs[fq]
+            ctx.bad("C17.2", f"memo in {fq}: the remembered value depends on a parameter that is not part of the key", f"{fi_.rel}:{mp[0]}", mp[1],
+                    owners=[fq], object=f"{fq}.<memo>")
     # ---- C17.1 ---------------------------------------------------------------------------------------------
     by_obj: Dict[str, List[SharedWrite]] = {}
     for sw in bad:
